@@ -12,6 +12,8 @@ pub struct RuleSpec {
     pub ns: usize, pub private: bool, pub global: bool, pub cond: Cond,
     /// (private?, occurs in data?) per pattern
     pub pats: Vec<(bool, bool)>,
+    /// number of tags and of metadata entries
+    pub ntags: usize, pub nmeta: usize,
 }
 
 pub fn gen_ruleset(rng: &mut Rng) -> Vec<RuleSpec> {
@@ -32,7 +34,8 @@ pub fn gen_ruleset(rng: &mut Rng) -> Vec<RuleSpec> {
             } else { Cond::Const(rng.chance(p_true, 10)) };
             let npats = if rng.chance(1, 3) { 1 + rng.below(4) as usize } else { 0 };
             let pats = (0..npats).map(|_| (rng.chance(1, 3), rng.chance(1, 2))).collect();
-            rules.push(RuleSpec { ns, private: rng.chance(p_priv, 10), global: rng.chance(p_glob, 10), cond, pats });
+            let (ntags, nmeta) = if rng.chance(1, 2) { (rng.below(4) as usize, rng.below(5) as usize) } else { (0, 0) };
+            rules.push(RuleSpec { ns, private: rng.chance(p_priv, 10), global: rng.chance(p_glob, 10), cond, pats, ntags, nmeta });
         }
     }
     rules
@@ -42,7 +45,15 @@ fn rule_source(id: usize, r: &RuleSpec) -> String {
     let mut s = String::new();
     if r.global { s.push_str("global "); }
     if r.private { s.push_str("private "); }
-    s.push_str(&format!("rule r{} {{\n", id));
+    let tags = if r.ntags == 0 { String::new() } else { format!(" : {}", (0..r.ntags).map(|k| format!("t{}", k)).collect::<Vec<_>>().join(" ")) };
+    s.push_str(&format!("rule r{}{} {{\n", id, tags));
+    if r.nmeta > 0 {
+        s.push_str("  meta:\n");
+        for k in 0..r.nmeta {
+            let v = match k % 4 { 0 => format!("{}", k), 1 => "\"text\"".to_string(), 2 => "true".to_string(), _ => "\"\\x00\\x01\"".to_string() };
+            s.push_str(&format!("    m{} = {}\n", k, v));
+        }
+    }
     if !r.pats.is_empty() {
         s.push_str("  strings:\n");
         for (k, (p, occ)) in r.pats.iter().enumerate() {
@@ -77,8 +88,8 @@ type Trace = Option<(Vec<(usize, usize)>, usize)>;
 
 fn rule_id(ident: &str) -> usize { ident[1..].parse().unwrap() }
 
-fn trace_iter<I, T, F>(mut it: I, id_of: F) -> Trace
-where I: ExactSizeIterator<Item = T>, F: Fn(&T) -> usize {
+fn trace_iter<I, T, F>(mut it: I, mut id_of: F) -> Trace
+where I: ExactSizeIterator<Item = T>, F: FnMut(&T) -> usize {
     catch(AssertUnwindSafe(move || {
         let mut tr = vec![];
         loop {
@@ -112,9 +123,12 @@ pub struct Observed {
     pub m: [Trace; 2], pub nm: [Trace; 2],
     /// per matching rule: pattern-iterator traces (exclude / include private)
     pub pats: Vec<(usize, [Trace; 2])>,
+    /// every other ExactSizeIterator of the results: (expected number of items when the rule set
+    /// determines it, trace): tags and metadata of every rule, matches of every pattern, module outputs
+    pub others: Vec<(Option<usize>, Trace)>,
 }
 
-pub fn observe(results: &yara_x::ScanResults, sched: &Vec<bool>) -> Observed {
+pub fn observe(results: &yara_x::ScanResults, sched: &Vec<bool>, specs: &[RuleSpec]) -> Observed {
     let m_sw: Trace = trace_sched!(results.matching_rules(), sched, |r: &yara_x::Rule| rule_id(r.identifier()));
     let nm_sw: Trace = trace_sched!(results.non_matching_rules(), sched, |r: &yara_x::Rule| rule_id(r.identifier()));
     let m0 = trace_iter(results.matching_rules(), |r| rule_id(r.identifier()));
@@ -130,7 +144,23 @@ pub fn observe(results: &yara_x::ScanResults, sched: &Vec<bool>) -> Observed {
         let t1 = trace_iter(r.patterns().include_private(true), pid);
         pats.push((rule_id(r.identifier()), [t0, t1]));
     }
-    Observed { m_sw, nm_sw, m: [m0, m1], nm: [n0, n1], pats }
+    let mut others = vec![];
+    let every_rule: Vec<yara_x::Rule> = catch(AssertUnwindSafe(|| results.matching_rules().include_private(true)
+        .chain(results.non_matching_rules().include_private(true)).collect::<Vec<_>>())).unwrap_or_default();
+    for r in &every_rule {
+        let spec = &specs[rule_id(r.identifier())];
+        let mut k = 0usize;
+        others.push((Some(spec.ntags), trace_iter(r.tags(), |_| { k += 1; k - 1 })));
+        let mut k = 0usize;
+        others.push((Some(spec.nmeta), trace_iter(r.metadata(), |_| { k += 1; k - 1 })));
+        for p in r.patterns().include_private(true) {
+            let mut k = 0usize;
+            others.push((None, trace_iter(p.matches(), |_| { k += 1; k - 1 })));
+        }
+    }
+    let mut k = 0usize;
+    others.push((None, trace_iter(results.module_outputs(), |_| { k += 1; k - 1 })));
+    Observed { m_sw, nm_sw, m: [m0, m1], nm: [n0, n1], pats, others }
 }
 
 fn coq_trace(t: &Trace) -> String {
@@ -143,7 +173,9 @@ pub fn compile(rules: &[RuleSpec]) -> Result<yara_x::Rules, String> {
     let mut cur = usize::MAX;
     for (id, r) in rules.iter().enumerate() {
         if r.ns != cur { c.new_namespace(&format!("ns{}", r.ns)); cur = r.ns; }
-        c.add_source(rule_source(id, r).as_str()).map_err(|e| e.to_string())?;
+        // two modules with a main function, so that ScanResults::module_outputs has something to yield
+        let src = if id == 0 { format!("import \"test_proto2\"\nimport \"time\"\n{}", rule_source(id, r)) } else { rule_source(id, r) };
+        c.add_source(src.as_str()).map_err(|e| e.to_string())?;
     }
     Ok(c.build())
 }
@@ -159,7 +191,7 @@ pub fn full_source(rules: &[RuleSpec]) -> String {
 }
 
 fn corpus() -> Vec<Vec<RuleSpec>> {
-    let r = |ns, private, global, b: bool| RuleSpec { ns, private, global, cond: Cond::Const(b), pats: vec![] };
+    let r = |ns, private, global, b: bool| RuleSpec { ns, private, global, cond: Cond::Const(b), pats: vec![], ntags: 2, nmeta: 3 };
     vec![
         // finding #2 (fixed): private non-global non-matching rule
         vec![r(0, true, false, false), r(0, false, false, false), r(0, false, false, true)],
@@ -200,11 +232,11 @@ pub fn run(args: &[String]) -> i32 {
             s.scan(0, &data[..cut]).unwrap();
             s.scan(cut, &data[cut..]).unwrap();
             let r = s.finish().unwrap();
-            observe(&r, &sched)
+            observe(&r, &sched, &rules)
         } else {
             let mut s = yara_x::Scanner::new(&compiled);
             let r = s.scan(&data).unwrap();
-            observe(&r, &sched)
+            observe(&r, &sched, &rules)
         };
         stats.inc("rule_sets");
         stats.inc(&format!("rules_{}", match rules.len() { 0 => "0", 1..=3 => "1-3", 4..=10 => "4-10", _ => "11+" }));
@@ -222,13 +254,15 @@ pub fn run(args: &[String]) -> i32 {
             Cond::Ref { neg, id } => format!("CRef {} {}", coq_bool(*neg), coq_nat(*id)) });
         let coq_pats = coq_list(&rules, |r| coq_list(&r.pats, |p| coq_bool(p.0).to_string()));
         let coq_obs_pats = coq_list(&obs.pats, |(id, t)| format!("({}, {}, {})", coq_nat(*id), coq_trace(&t[0]), coq_trace(&t[1])));
-        let case = format!("mkCase {} {} {} {} {} {} {} {} {} {} {}", coq_rules, coq_conds, coq_pats,
+        let coq_others = coq_list(&obs.others, |(n, t)| format!("({}, {})", coq_option(n, |x| coq_nat(*x)), coq_trace(t)));
+        if obs.others.iter().any(|(_, t)| matches!(t, Some((tr, _)) if tr.len() >= 2)) { stats.inc("has_tags_metadata_or_matches_iterators_with_2+_items"); }
+        let case = format!("mkCase {} {} {} {} {} {} {} {} {} {} {} {}", coq_rules, coq_conds, coq_pats,
             coq_trace(&obs.m[0]), coq_trace(&obs.m[1]), coq_trace(&obs.nm[0]), coq_trace(&obs.nm[1]), coq_obs_pats,
-            coq_list(&sched, |b| coq_bool(*b).to_string()), coq_trace(&obs.m_sw), coq_trace(&obs.nm_sw));
+            coq_list(&sched, |b| coq_bool(*b).to_string()), coq_trace(&obs.m_sw), coq_trace(&obs.nm_sw), coq_others);
         if sched.len() >= 2 && sched.windows(2).any(|w| w[0] != w[1]) { stats.inc("include_private_switched_mid_iteration"); }
         let replay = format!("{{\"index\":{},\"block_mode\":{},\"source\":{},\"data_hex\":\"{}\",\"observed\":{}}}",
             i, block_mode, json_str(&full_source(&rules)), hex(&data),
-            json_str(&format!("matching={:?}/{:?} non_matching={:?}/{:?} schedule={:?} matching_sw={:?} non_matching_sw={:?}", obs.m[0], obs.m[1], obs.nm[0], obs.nm[1], sched, obs.m_sw, obs.nm_sw)));
+            json_str(&format!("matching={:?}/{:?} non_matching={:?}/{:?} schedule={:?} matching_sw={:?} non_matching_sw={:?} tags_metadata_matches_module_outputs={:?}", obs.m[0], obs.m[1], obs.nm[0], obs.nm[1], sched, obs.m_sw, obs.nm_sw, obs.others)));
         if samples.len() < 3 && rules.len() >= 3 { samples.push(replay.clone()); }
         shards.push(case, replay);
     }
